@@ -77,7 +77,7 @@ def run(ctx):
             cases.append((items, epoch, "one", []))
     # epochs some handlers cannot use: beyond 32 bits, before 1980, negative
     for items in rng.sample(base, 12 if ctx.tier == "quick" else 80) + [[], ["gzip"], ["zip"], ["-ar"], ["-gzip"], ["jar", "gzip"]]:
-        for epoch in (5894967296, 100000000, -5, 4354819200):      # (values at which the sample files of the usable handlers are still dirty)
+        for epoch in (5894967296, 100000000, -5, 4354819200, 0, 1):      # (values at which the sample files of the usable handlers are still dirty; 0 is an epoch, not "none")
             cases.append((items, epoch, "one", rng.choice([[], [], ["-j2"]])))
     # the same under the options of an rpm build (--brp with the tree inside $RPM_BUILD_ROOT), which change reporting but not selection
     for items in [[], ["gzip"], ["zip"], ["jar", "gzip"], ["-ar"], ["ar", "zip"]]:
